@@ -77,3 +77,15 @@ Definition fcbs2_case_ok (c : fcbs2_case) : bool :=
   | None => false
   | Some (an, am) => plist_same an (c2_anoms c) && plist_same (map fst am) (c2_inner c) && flist_same (map snd am) (c2_max c)
   end.
+
+(** Several columns (Properties/C02_binary64_l2_columns.v): the per-column kernel twins aggregated as NumPy's row sum does for fewer than 8 columns. *)
+From SK Require Import Proofs.PeltFloatL2Multi.
+Record fpl2m_case := { m2_cols : list (list float); m2_n : nat; m2_pen : float; m2_m : nat; m2_mag : float; m2_b : float; m2_cpts : list nat; m2_scores : list float }.
+Definition fpl2m_case_ok (c : fpl2m_case) : bool :=
+  let '(sc, cp) := gpelt F64 (CfM (m2_cols c)) (m2_pen c) (m2_m c) (m2_m c - 1) (m2_n c) in
+  flist_same sc (m2_scores c) && nlist_same cp (m2_cpts c).
+Definition fpl2m_case_premise (c : fpl2m_case) : bool :=
+  cols_length_ok (m2_cols c) (m2_n c) && l2_all_trace_ok_cols (m2_cols c)
+  && pelt_trace_finite (CfM (m2_cols c)) (m2_pen c) (m2_m c) (m2_m c - 1) (m2_n c)
+  && pelt_mag_ok (CfM (m2_cols c)) (m2_pen c) (m2_m c) (m2_m c - 1) (m2_n c) (m2_mag c)
+  && agg_mag_ok (m2_cols c) (m2_n c) (m2_mag c) && l2_absmax_ok_cols (m2_cols c) (m2_b c).
